@@ -192,3 +192,39 @@ Theorem C04_rounded_rect_prism : forall (w h r : R) (segments : Z) (center : boo
   linear_extrude pts height = Some ph ->
   (forall u v, (mcnt u v (snd ph) <= 1)%nat /\ mcnt u v (snd ph) = mcnt v u (snd ph)) /\ ((0 < height)%R -> (vol6 (fst ph) (snd ph) < 0)%R).
 Proof. exact rounded_rect_prism_unconditional. Qed.
+
+(* ---- open sweeps of fan-convex profiles are closed in the exact form with no hypothesis on the caps, whatever
+        direction the path starts and ends in: in particular circles (tubes), inscribed / circumscribed polygons and
+        rounded rectangles. (Closed sweeps have no caps: C04_sweep_exact.) ---- *)
+From SCAD Require Import Geom.Fan_convex Geom.Sweep_caps Geom.Sweep_library.
+Theorem C04_sweep_fanconvex : forall (profile : list (pt2 R)) (path : list (pt3 R)) (twist : R) ph,
+  sweep profile path twist false = Some ph -> (3 <= length profile)%nat ->
+  fanconv false (enumerate profile) -> fanconv true (rev (enumerate profile)) ->
+  nthp3 path (Z.of_nat (length path) - 2) <> nthp3 path (Z.of_nat (length path) - 1) ->
+  forall u v, (mcnt u v (snd ph) <= 1)%nat /\ mcnt u v (snd ph) = mcnt v u (snd ph).
+Proof. exact sweep_fanconvex_closed. Qed.
+Theorem C04_sweep_circle_and_rounded_rect :
+  (forall (radius : R) (segments : Z) (c : list (pt2 R)) (path : list (pt3 R)) (twist : R) ph,
+     (3 <= segments)%Z -> radius <> 0%R -> circle radius segments = Some c -> sweep c path twist false = Some ph ->
+     nthp3 path (Z.of_nat (length path) - 2) <> nthp3 path (Z.of_nat (length path) - 1) ->
+     forall u v, (mcnt u v (snd ph) <= 1)%nat /\ mcnt u v (snd ph) = mcnt v u (snd ph)) /\
+  (forall (w h r : R) (segments : Z) (center : bool) pts (path : list (pt3 R)) (twist : R) ph,
+     (0 < r)%R -> (2 * r < w)%R -> (2 * r < h)%R -> (1 <= segments)%Z -> rounded_rect w h r segments center = Some pts ->
+     sweep pts path twist false = Some ph ->
+     nthp3 path (Z.of_nat (length path) - 2) <> nthp3 path (Z.of_nat (length path) - 1) ->
+     forall u v, (mcnt u v (snd ph) <= 1)%nat /\ mcnt u v (snd ph) = mcnt v u (snd ph)).
+Proof. split; [exact sweep_circle_closed|exact sweep_rounded_rect_closed]. Qed.
+
+(* ---- revolves of fan-convex profiles: closed in the exact form for every angle and segment count with no hypothesis on
+        the caps; and the ring -- a circle of radius r at distance R0 > r from the axis, any angle in (0, 360] -- is closed
+        and outward unconditionally ---- *)
+Theorem C04_revolve_fanconvex : forall (profile : list (pt2 R)) (degrees : R) (segments : Z) ph,
+  rotate_extrude profile degrees segments = Some ph -> (3 <= length profile)%nat ->
+  fanconv false (enumerate profile) -> fanconv true (rev (enumerate profile)) ->
+  forall u v, (mcnt u v (snd ph) <= 1)%nat /\ mcnt u v (snd ph) = mcnt v u (snd ph).
+Proof. exact revolve_fanconvex_closed. Qed.
+Theorem C04_ring : forall (r R0 : R) (n : Z) (c : list (pt2 R)) (degrees : R) (segments : Z) ph,
+  (3 <= n)%Z -> (0 < r)%R -> (r < R0)%R -> circle r n = Some c -> (0 < degrees)%R ->
+  rotate_extrude (pt2s_translate c (Pt2 R0 0)) degrees segments = Some ph ->
+  (forall u v, (mcnt u v (snd ph) <= 1)%nat /\ mcnt u v (snd ph) = mcnt v u (snd ph)) /\ (vol6 (fst ph) (snd ph) < 0)%R.
+Proof. exact ring_unconditional. Qed.
